@@ -6,6 +6,8 @@ Property theorems about the model in `Model/Config.lean` (Mathlib-free).
 import Midgard.Model.Config
 import Midgard.Generated.ConfigTables
 import Midgard.Proofs.ConfigRoundTrip
+import Midgard.Model.ConfigTyped
+import Midgard.Proofs.TimeText
 
 namespace Midgard.Props.C19
 open Midgard.Config
@@ -1728,6 +1730,455 @@ example : (entryLines 45 30 "stations"
 /-- a word starting with `#` is outside (it would be read as a comment when it starts a line) -/
 example : WfText true 45 30 [("s", [("k", ⟨"a #b", "", []⟩)])] = false := by decide +kernel
 
+/-! ### Typed accessors with arguments: `as_list` / `as_tuple` / `as_dict` with character-class patterns -/
+
+/-- the default patterns and limits of the source are the ones the model's defaults stand for -/
+theorem accessor_defaults :
+    Generated.ConfigTables.splitDefaults = [("as_list.split_re", "[\\s,]"), ("as_tuple.split_re", "[\\s,]"),
+      ("as_dict.item_split_re", "[\\s,]"), ("as_dict.key_value_split_re", "[:]")] ∧
+    Generated.ConfigTables.maxsplitDefaults = [("as_list", 0), ("as_tuple", 0), ("as_dict", 0)] ∧
+    parseClass? "[\\s,]" = some classSpaceComma ∧ parseClass? "[:]" = some classColon ∧
+    Generated.ConfigTables.asDateDefault = "%Y-%m-%d" ∧ Generated.ConfigTables.asDatetimeDefault = "%Y-%m-%d %H:%M:%S" ∧
+    Generated.ConfigTables.fmtDate = "%Y-%m-%d" ∧ Generated.ConfigTables.fmtDatetime = "%Y-%m-%d %H:%M:%S" := by
+  decide +kernel
+
+theorem classSpaceComma_has (c : Char) : classSpaceComma.has c = (isBlank c || decide (c = ',')) := by
+  by_cases h : c = ',' <;> cases hb : isBlank c <;>
+    simp [classSpaceComma, CharClass.has, ClassItem.has, h, hb, eq_comm]
+
+theorem classColon_has (c : Char) : classColon.has c = decide (c = ':') := by
+  by_cases h : c = ':' <;> simp [classColon, CharClass.has, ClassItem.has, h, eq_comm]
+
+/-- `re.split("[\s,]", text)` without empty pieces is `text.replace(",", " ").split()` -/
+theorem reSplit_filter_eq_splitBlanks (isSep : Char → Bool) (hsep : ∀ c, isSep c = (isBlank c || decide (c = ',')))
+    (s cur : List Char) :
+    (reSplit isSep none s cur).filter (fun p => !p.isEmpty) =
+      splitBlanks (s.map (fun c => if c = ',' then ' ' else c)) cur := by
+  induction s generalizing cur with
+  | nil =>
+    simp only [reSplit, List.map_nil, splitBlanks, List.filter_cons, List.filter_nil]
+    cases cur <;> simp
+  | cons c t ih =>
+    by_cases hc : isSep c = true
+    · have hb : isBlank (if c = ',' then ' ' else c) = true := by
+        rw [hsep] at hc
+        by_cases h : c = ','
+        · simp [h, isBlank_space]
+        · simpa [h] using hc
+      have : ((none : Option Nat) != some 0) = true := by decide
+      simp only [reSplit, hc, this, Bool.and_true, if_true, List.map_cons, splitBlanks, hb, Option.map_none]
+      cases cur with
+      | nil => simp [List.filter_cons, ih]
+      | cons a r => simp [List.filter_cons, ih]
+    · have hc' : isSep c = false := by simpa using hc
+      have hne : c ≠ ',' := by intro h; rw [hsep, h] at hc'; simp at hc'
+      have hb : isBlank c = false := by rw [hsep] at hc'; simpa [hne] using hc'
+      simp only [reSplit, hc', Bool.false_and, List.map_cons, hne, if_false, splitBlanks, hb]
+      exact ih (c :: cur)
+
+/-- **`as_list()` / `as_tuple()` with their defaults are the `list` / `tuple` properties** -/
+theorem asListRe_default (v : String) : asListRe classSpaceComma 0 v = asList v := by
+  simp only [asListRe, limOf, if_true, asList]
+  rw [reSplit_filter_eq_splitBlanks classSpaceComma.has classSpaceComma_has]
+
+/-- when no further split is allowed the rest of the text is one piece -/
+theorem reSplit_zero (isSep : Char → Bool) (s cur : List Char) : reSplit isSep (some 0) s cur = [cur.reverse ++ s] := by
+  induction s generalizing cur with
+  | nil => simp [reSplit]
+  | cons c t ih => simp [reSplit, ih]
+
+/-- **the pieces of `re.split(class, text)`**: no piece contains a character of the class, and the pieces joined by the
+separators they were cut at are the text: their concatenation is the text without the characters of the class -/
+theorem reSplit_spec (isSep : Char → Bool) (s cur : List Char) (hcur : ∀ c ∈ cur, isSep c = false) :
+    (∀ p ∈ reSplit isSep none s cur, ∀ c ∈ p, isSep c = false) ∧
+    (reSplit isSep none s cur).flatten = cur.reverse ++ s.filter (fun c => !isSep c) := by
+  induction s generalizing cur with
+  | nil => simpa [reSplit] using hcur
+  | cons c t ih =>
+    by_cases hc : isSep c = true
+    · have : ((none : Option Nat) != some 0) = true := by decide
+      simp only [reSplit, hc, this, Bool.and_true, if_true, Option.map_none]
+      obtain ⟨h1, h2⟩ := ih [] (by simp)
+      refine ⟨?_, by simp [h2, hc]⟩
+      intro p hp
+      rcases List.mem_cons.1 hp with rfl | hp
+      · intro x hx; exact hcur x (List.mem_reverse.1 hx)
+      · exact h1 p hp
+    · have hc' : isSep c = false := by simpa using hc
+      simp only [reSplit, hc', Bool.false_and]
+      obtain ⟨h1, h2⟩ := ih (c :: cur) (by
+        intro x hx; rcases List.mem_cons.1 hx with rfl | hx
+        · exact hc'
+        · exact hcur x hx)
+      exact ⟨h1, by simp [h2, hc']⟩
+
+/-- **`as_list(split_re)`**: every element is non-empty and free of separator characters, and in order they make up the
+text without its separator characters (for `maxsplit = 0`) -/
+theorem asListRe_spec (cc : CharClass) (v : String) :
+    (∀ w ∈ asListRe cc 0 v, w ≠ "" ∧ ∀ c ∈ w.toList, cc.has c = false) ∧
+    ((asListRe cc 0 v).map String.toList).flatten = v.toList.filter (fun c => !cc.has c) := by
+  obtain ⟨h1, h2⟩ := reSplit_spec cc.has v.toList [] (by simp)
+  simp only [asListRe, limOf, if_true]
+  constructor
+  · intro w hw
+    obtain ⟨p, hp, rfl⟩ := List.mem_map.1 hw
+    obtain ⟨hp1, hp2⟩ := List.mem_filter.1 hp
+    refine ⟨?_, by simpa using h1 p hp1⟩
+    intro h
+    have : p = [] := by simpa using congrArg String.toList h
+    simp [this] at hp2
+  · rw [List.map_map]
+    have : (String.toList ∘ String.ofList) = id := by funext x; simp
+    rw [this, List.map_id]
+    have hf : ∀ l : List (List Char), (l.filter (fun p => !p.isEmpty)).flatten = l.flatten := by
+      intro l; induction l with
+      | nil => rfl
+      | cons a t ih => cases a <;> simp [List.filter_cons, ih]
+    rw [hf, h2]; simp
+
+/-- splitting an item once at the key/value separator is `str.partition` when the separator occurs, and leaves a
+single piece when it does not -/
+theorem reSplit_once (sep : Char) (isSep : Char → Bool) (hsep : ∀ c, isSep c = decide (c = sep)) (s cur : List Char) :
+    reSplit isSep (some 1) s cur =
+      if (partitionAt sep s).2.1 then [cur.reverse ++ (partitionAt sep s).1, (partitionAt sep s).2.2]
+      else [cur.reverse ++ s] := by
+  induction s generalizing cur with
+  | nil => simp [reSplit, partitionAt]
+  | cons c t ih =>
+    by_cases hc : c = sep
+    · have : ((some 1 : Option Nat) != some 0) = true := by decide
+      simp [reSplit, hsep, hc, partitionAt, this, reSplit_zero]
+    · have hc' : isSep c = false := by rw [hsep]; simp [hc]
+      have hp : partitionAt sep (c :: t) = (c :: (partitionAt sep t).1, (partitionAt sep t).2.1, (partitionAt sep t).2.2) := by
+        simp [partitionAt, hc]
+      simp only [reSplit, hc', Bool.false_and, Bool.false_eq_true, if_false]
+      rw [hp, ih (c :: cur)]
+      split <;> simp
+
+/-- the loop of `as_dict` over the items -/
+def dictStep (kvCc : CharClass) (acc : Except Err (List (String × String))) (it : String) :
+    Except Err (List (String × String)) :=
+  match acc with
+  | .error e => .error e
+  | .ok d =>
+    match reSplit kvCc.has (some 1) it.toList [] with
+    | [k, x] => .ok (dset d (String.ofList k) (String.ofList x))
+    | _ => .error .value
+
+theorem asDictRe_eq (itemCc kvCc : CharClass) (ms : Nat) (v : String) :
+    asDictRe itemCc kvCc ms v = (asListRe itemCc ms v).foldl (dictStep kvCc) (.ok []) := rfl
+
+theorem dictStep_error (kvCc : CharClass) (l : List String) (e : Err) : l.foldl (dictStep kvCc) (.error e) = .error e := by
+  induction l with
+  | nil => rfl
+  | cons a t ih => simpa [dictStep] using ih
+
+theorem dictStep_colon (d : List (String × String)) (it : List Char) :
+    dictStep classColon (.ok d) (String.ofList it) =
+      if ':' ∈ it then .ok (dset d (dictItem it).1 (dictItem it).2) else .error .value := by
+  simp only [dictStep, String.toList_ofList]
+  rw [reSplit_once ':' classColon.has classColon_has]
+  by_cases h : ':' ∈ it
+  · have := (partitionAt_spec ':' it).1 h
+    simp [h, this.1, dictItem]
+  · have := (partitionAt_spec ':' it).2 h
+    simp [h, this]
+
+/-- **`as_dict()` with its defaults**: when every item has a colon it is the `dict` property -/
+theorem asDictRe_default_ok (v : String) (h : ∀ it ∈ asListChars v, ':' ∈ it) :
+    asDictRe classSpaceComma classColon 0 v = .ok (asDict v) := by
+  rw [asDictRe_eq, asListRe_default, asList_eq, asDict_eq]
+  generalize asListChars v = l at h
+  suffices hs : ∀ d, (l.map String.ofList).foldl (dictStep classColon) (.ok d) =
+      .ok ((l.map dictItem).foldl (fun acc p => dset acc p.1 p.2) d) from hs []
+  induction l with
+  | nil => intro d; rfl
+  | cons it t ih =>
+    intro d
+    simp only [List.map_cons, List.foldl_cons, dictStep_colon, h it (by simp), if_true]
+    exact ih (fun x hx => h x (List.mem_cons_of_mem _ hx)) _
+
+/-- … and when some item has no colon, `as_dict()` raises ValueError (the unpacking `for k, v in …` fails), where the
+`dict` property maps that item to the empty text -/
+theorem asDictRe_default_error (v : String) (it : List Char) (hit : it ∈ asListChars v) (hno : ':' ∉ it) :
+    asDictRe classSpaceComma classColon 0 v = .error .value := by
+  rw [asDictRe_eq, asListRe_default, asList_eq]
+  generalize asListChars v = l at hit
+  suffices hs : ∀ acc, (l.map String.ofList).foldl (dictStep classColon) acc = .error .value ∨
+      (∃ e, acc = .error e ∧ e ≠ .value) from by
+    rcases hs (.ok []) with h | ⟨e, h, _⟩
+    · exact h
+    · cases h
+  induction l with
+  | nil => simp at hit
+  | cons a t ih =>
+    intro acc
+    cases acc with
+    | error e =>
+      by_cases he : e = .value
+      · left; subst he; simp [dictStep_error, dictStep]
+      · right; exact ⟨e, rfl, he⟩
+    | ok d =>
+      left
+      simp only [List.map_cons, List.foldl_cons, dictStep_colon]
+      rcases List.mem_cons.1 hit with rfl | hmem
+      · simp [hno, dictStep_error]
+      · by_cases ha : ':' ∈ a
+        · simp only [ha, if_true]
+          rcases ih hmem (.ok (dset d (dictItem a).1 (dictItem a).2)) with h | ⟨e, h, _⟩
+          · exact h
+          · cases h
+        · simp [ha, dictStep_error]
+
+/-- **`dict_partition`**: the `dict` property takes an item apart with `str.partition(":")` — an item without a colon is
+a key with the empty text as value (it is not an error, unlike in `as_dict`) -/
+theorem dict_partition (it : List Char) (h : ':' ∉ it) : dictItem it = (String.ofList it, "") := by
+  have := (dictItem_text it).2 h
+  apply Prod.ext
+  · simpa using congrArg String.ofList this.1
+  · exact this.2
+
+example : asDict "elevation:10, ionosphere, clock:poly:2" = [("elevation", "10"), ("ionosphere", ""), ("clock", "poly:2")] := by
+  decide +kernel
+example : (asDictRe classSpaceComma classColon 0 "elevation:10, ionosphere") = .error .value := by
+  apply asDictRe_default_error _ "ionosphere".toList <;> decide +kernel
+
+/-! ### `float`, `date`, `datetime`, `path`, `as_enum` -/
+
+/-- `entry.float` raises nothing but ValueError -/
+theorem asFloat_error (v : String) (e : Err) (h : asFloat v = .error e) : e = .value := by
+  simp only [asFloat] at h
+  split at h
+  · simp at h
+  · split at h
+    · simp at h
+    · split at h
+      · simp at h; exact h.symm
+      · split at h
+        · simp at h; exact h.symm
+        · split at h <;> simp at h; exact h.symm
+
+/-- **`entry.float` = the decimal parser on the text without its blanks around and its underscores**: a finite answer is
+the exact value `Decimal.parseFloat` (the `float()` grammar shared with the file parsers: sign, digits, point,
+exponent) gives for the text with the underscores taken out, and underscores are accepted between two digits only -/
+theorem asFloat_sound (v : String) (q : Rat) (h : asFloat v = .ok (.finite q)) :
+    ∃ t, dropUnderscores none (stripBlanks v.toList) = some t ∧ Midgard.Decimal.parseFloat t = some q := by
+  simp only [asFloat] at h
+  split at h
+  · simp at h
+  · split at h
+    · simp at h
+    · split at h
+      · simp at h
+      · rename_i t ht
+        split at h
+        · simp at h
+        · split at h
+          · rename_i q' hq
+            simp at h; subst h; exact ⟨t, ht, hq⟩
+          · simp at h
+
+theorem dropUnderscores_spec (prev : Option Char) (s t : List Char) (h : dropUnderscores prev s = some t) :
+    t = s.filter (· ≠ '_') := by
+  induction s generalizing prev t with
+  | nil => simp [dropUnderscores] at h; subst h; rfl
+  | cons c r ih =>
+    by_cases hc : c = '_'
+    · subst hc
+      cases prev with
+      | none => simp [dropUnderscores] at h
+      | some p =>
+        cases r with
+        | nil => simp [dropUnderscores] at h
+        | cons n r' =>
+          simp only [dropUnderscores] at h
+          split at h
+          · simpa using ih _ _ h
+          · simp at h
+    · have : dropUnderscores prev (c :: r) = (dropUnderscores (some c) r).map (c :: ·) := by
+        cases prev <;> simp [dropUnderscores, hc]
+      rw [this] at h
+      cases hr : dropUnderscores (some c) r with
+      | none => simp [hr] at h
+      | some t' => simp [hr] at h; subst h; simp [hc, ih _ _ hr]
+
+/-- a text without underscores is handed to the decimal parser as it is -/
+theorem dropUnderscores_plain (prev : Option Char) (s : List Char) (h : '_' ∉ s) : dropUnderscores prev s = some s := by
+  induction s generalizing prev with
+  | nil => rfl
+  | cons c r ih =>
+    have hc : c ≠ '_' := by intro e; subst e; simp at h
+    have hr : '_' ∉ r := fun hm => h (List.mem_cons_of_mem _ hm)
+    cases prev <;> simp [dropUnderscores, hc, ih _ hr]
+
+example : asFloat "1_000" = .ok (.finite 1000) := by decide +kernel
+example : asFloat " -2.5e-3\n" = .ok (.finite (-1 / 400)) := by decide +kernel
+example : asFloat "1__0" = .error .value ∧ asFloat "1_.5" = .error .value ∧ asFloat "" = .error .value := by decide +kernel
+example : asFloat "-Infinity" = .ok (.inf true) ∧ asFloat "NaN" = .ok .nan := by decide +kernel
+
+/-! #### dates -/
+
+section Dates
+open Midgard.TimeFormat Midgard.Text
+
+theorem dayDir_of_numDir (s : List Char) (r : Int × List Char) (h : numDir 1 2 1 31 s = some r) : dayDir s = some r := by
+  simp [dayDir, h]
+
+theorem ymdDirB_of_ymdDir (s : List Char) (r : Int × Int × Int × List Char) (h : ymdDir s = some r) :
+    ymdDirB s = some r := by
+  simp only [ymdDir, ymdDirB] at h ⊢
+  cases hy : numDir 4 4 0 9999 s with
+  | none => simp [hy] at h
+  | some y =>
+    simp only [hy, Option.bind_some] at h ⊢
+    cases h1 : litDir '-' y.2 with
+    | none => simp [h1] at h
+    | some s1 =>
+      simp only [h1, Option.bind_some] at h ⊢
+      cases hm : numDir 1 2 1 12 s1 with
+      | none => simp [hm] at h
+      | some m =>
+        simp only [hm, Option.bind_some] at h ⊢
+        cases h2 : litDir '-' m.2 with
+        | none => simp [h2] at h
+        | some s2 =>
+          simp only [h2, Option.bind_some] at h ⊢
+          cases hd : numDir 1 2 1 31 s2 with
+          | none => simp [hd] at h
+          | some d =>
+            simp only [hd, Option.bind_some] at h
+            simp [dayDir_of_numDir s2 d hd, h]
+
+/-- **`entry.date` agrees with the `%Y-%m-%d` parser of the time model (C02)** whenever that one accepts the text (the
+accessor's own parser accepts in addition a day written as a blank and one digit, as `_strptime`'s `%d` does) -/
+theorem asDate_of_strptime (v : String) (dt : Int) (h : strptime .date false v.toList = some dt) : asDate v = .ok dt := by
+  simp only [strptime] at h
+  cases ha : ymdDir v.toList with
+  | none => simp [ha] at h
+  | some a =>
+    simp only [ha, Option.bind_some] at h
+    simp only [asDate, ymdDirB_of_ymdDir _ a ha, Option.bind_some, h]
+
+theorem asDatetime_of_strptime (v : String) (dt : Int) (h : strptime .iso false v.toList = some dt) :
+    asDatetime v = .ok dt := by
+  simp only [strptime] at h
+  cases ha : ymdDir v.toList with
+  | none => simp [ha] at h
+  | some a =>
+    simp only [ha, Option.bind_some, reduceCtorEq, if_false, optFracDir, Bool.false_eq_true] at h
+    simp only [asDatetime, ymdDirB_of_ymdDir _ a ha, Option.bind_some]
+    cases hw : wsDir a.2.2.2 with
+    | none => simp [hw] at h
+    | some s1 =>
+      simp only [hw, Option.bind_some] at h ⊢
+      cases hb : hmsDir s1 with
+      | none => simp [hb] at h
+      | some b =>
+        simp only [hb, Option.bind_some] at h ⊢
+        simp only [h]
+
+/-- **what `date.isoformat()` writes, `entry.date` reads**: for every day of the years 1000 … 9999 -/
+theorem asDate_isoformat (dt : DateTime) (hy : 1000 ≤ (fieldsOf dt).year ∧ (fieldsOf dt).year ≤ 9999) :
+    asDate (String.ofList (render .date dt)) = .ok (dt / usPerDay * usPerDay) := by
+  apply asDate_of_strptime
+  have := Midgard.TimeFormat.parse_render_date dt hy
+  simp only [parse?, render] at this
+  rw [str2dt_nofrac _ _ (noPoint_renderYmd _)] at this
+  simpa [render] using this
+
+/-- **what `str(datetime)` writes for a whole second, `entry.datetime` reads** -/
+theorem asDatetime_isoformat (dt : DateTime) (hy : 1000 ≤ (fieldsOf dt).year ∧ (fieldsOf dt).year ≤ 9999) :
+    asDatetime (String.ofList (renderYmd (fieldsOf dt) ++ ' ' :: renderHms (fieldsOf dt))) =
+      .ok (dt - (fieldsOf dt).micro) := by
+  apply asDatetime_of_strptime
+  have hx := fieldsSpec dt
+  generalize fieldsOf dt = x at hx hy
+  simp only [String.toList_ofList, strptime]
+  rw [ymdDir_render x _ hy hx.month hx.day]
+  have hws : wsDir (' ' :: renderHms x) = some (renderHms x) := by
+    apply wsDir_blank _
+    intro c r' hcr
+    obtain ⟨d, r, hz, hd⟩ := zpad_head_digit 2 x.hour
+    unfold renderHms at hcr
+    rw [hz] at hcr
+    simp only [List.cons_append, List.cons.injEq] at hcr
+    rw [← hcr.1]; exact Midgard.Decimal.isSpace_of_isDigit hd
+  simp only [Option.bind_some, reduceCtorEq, if_false, hws]
+  have hh := hmsDir_render x [] hx.hour hx.minute hx.second
+  rw [List.append_nil] at hh
+  rw [hh]
+  simp only [Option.bind_some, optFracDir, Bool.false_eq_true, if_false, List.isEmpty_nil, if_true]
+  unfold mkDateTime
+  have h59 : x.second ≤ 59 := by have := hx.second; omega
+  rw [if_pos ⟨by omega, hx.valid, h59⟩]
+  have hb := hx.back
+  simp only [ofFields, usPerDay, usPerSec] at hb ⊢
+  rw [Option.some.injEq]
+  have key : ∀ a c d : Int, a + c = d → a + 0 = d - c := by intro a c d h; omega
+  exact key _ _ _ hb
+
+example : asDate "2020-02-30" = .error .value ∧ asDate "2020-1-5" = asDate "2020-01-05" ∧ asDate "2020-01- 5" = asDate "2020-01-05" ∧
+    asDate "2000-01-02" = .ok 86400000000 ∧ asDatetime "2000-01-01  0:0:1" = .ok 1000000 ∧
+    asDatetime "2000-01-01 00:00:60" = .error .value := by decide +kernel
+
+end Dates
+
+/-! #### paths -/
+
+theorem splitOnChar_none (sep : Char) (s cur : List Char) (h : sep ∉ s) : splitOnChar sep s cur = [cur.reverse ++ s] := by
+  induction s generalizing cur with
+  | nil => simp [splitOnChar]
+  | cons c t ih =>
+    have hc : c ≠ sep := by intro e; subst e; simp at h
+    have ht : sep ∉ t := fun hm => h (List.mem_cons_of_mem _ hm)
+    simp [splitOnChar, hc, ih _ ht]
+
+/-- a single path component (no slash, not empty, not `.`) is its own path -/
+theorem normPath_component (s : List Char) (h : '/' ∉ s) (hne : s ≠ []) (hdot : s ≠ ['.']) : normPath s = s := by
+  have htw : s.takeWhile (· = '/') = [] := by
+    cases s with
+    | nil => rfl
+    | cons c t =>
+      have hc : c ≠ '/' := by intro e; subst e; simp at h
+      simp [List.takeWhile, hc]
+  have hemp : s.isEmpty = false := by cases s <;> simp_all
+  have hd : (s != ['.']) = true := by simpa using hdot
+  simp [normPath, htw, splitOnChar_none '/' s [] h, hemp, hd, joinWith, hne]
+
+/-- without `~` the text goes to `pathlib` as it is; `~/rest` is `$HOME` (without trailing slashes) followed by `/rest` -/
+theorem asPath_no_tilde (home v : String) (h : '~' ∉ v.toList) : asPath home v = some (String.ofList (normPath v.toList)) := by
+  simp [asPath, h]
+
+theorem expandUser_home (home rest : List Char) :
+    expandUser home ('~' :: '/' :: rest) = some ((home.reverse.dropWhile (· = '/')).reverse ++ '/' :: rest) := by
+  simp [expandUser]
+
+example : asPath "/home/geo/" "~/x//y/./z/" = some "/home/geo/x/y/z" ∧ asPath "/h" "//a/b" = some "//a/b" ∧
+    asPath "/h" "///a" = some "/a" ∧ asPath "/h" "" = some "." ∧ asPath "/h" "~user/x" = none ∧ asPath "/h" "a~b" = some "a~b" := by
+  decide +kernel
+
+/-! #### enumerations -/
+
+/-- **`as_enum(name)`**: the member (an alias stands for the member it was defined equal to) when the registered
+enumeration `name` has a member called like the value; ValueError when it has not; UnknownEnumError when no enumeration
+is registered under `name` -/
+theorem asEnum_spec (table : List (String × List (String × String))) (name v : String) :
+    (∀ m, asEnum table name v = .ok m ↔ ∃ members, dget? table name = some members ∧ dget? members v = some m) ∧
+    (asEnum table name v = .error .unknownEnum ↔ dget? table name = none) ∧
+    (asEnum table name v = .error .value ↔ ∃ members, dget? table name = some members ∧ dget? members v = none) := by
+  simp only [asEnum]
+  cases ht : dget? table name with
+  | none => simp
+  | some members =>
+    simp only
+    cases hm : dget? members v with
+    | none => simp [hm]
+    | some c => simp [hm]
+
+example : asEnum Generated.ConfigTables.enumTable "gnss_freq_G" "f1" = .ok "L1" ∧
+    asEnum Generated.ConfigTables.enumTable "gnss_freq_G" "l1" = .error .value ∧
+    asEnum Generated.ConfigTables.enumTable "nope" "L1" = .error .unknownEnum := by decide +kernel
+
 end Midgard.Props.C19
 
 #print axioms Midgard.Props.C19.bool_spellings
@@ -1858,3 +2309,33 @@ end Midgard.Props.C19
 #print axioms Midgard.Props.C19.formatStr_none
 #print axioms Midgard.Props.C19.replace_known_variable
 #print axioms Midgard.Props.C19.entryReplace_known_variable
+#print axioms Midgard.Props.C19.accessor_defaults
+#print axioms Midgard.Props.C19.classSpaceComma_has
+#print axioms Midgard.Props.C19.classColon_has
+#print axioms Midgard.Props.C19.reSplit_filter_eq_splitBlanks
+#print axioms Midgard.Props.C19.asListRe_default
+#print axioms Midgard.Props.C19.reSplit_zero
+#print axioms Midgard.Props.C19.reSplit_spec
+#print axioms Midgard.Props.C19.asListRe_spec
+#print axioms Midgard.Props.C19.reSplit_once
+#print axioms Midgard.Props.C19.asDictRe_eq
+#print axioms Midgard.Props.C19.dictStep_error
+#print axioms Midgard.Props.C19.dictStep_colon
+#print axioms Midgard.Props.C19.asDictRe_default_ok
+#print axioms Midgard.Props.C19.asDictRe_default_error
+#print axioms Midgard.Props.C19.dict_partition
+#print axioms Midgard.Props.C19.asFloat_error
+#print axioms Midgard.Props.C19.asFloat_sound
+#print axioms Midgard.Props.C19.dropUnderscores_spec
+#print axioms Midgard.Props.C19.dropUnderscores_plain
+#print axioms Midgard.Props.C19.dayDir_of_numDir
+#print axioms Midgard.Props.C19.ymdDirB_of_ymdDir
+#print axioms Midgard.Props.C19.asDate_of_strptime
+#print axioms Midgard.Props.C19.asDatetime_of_strptime
+#print axioms Midgard.Props.C19.asDate_isoformat
+#print axioms Midgard.Props.C19.asDatetime_isoformat
+#print axioms Midgard.Props.C19.splitOnChar_none
+#print axioms Midgard.Props.C19.normPath_component
+#print axioms Midgard.Props.C19.asPath_no_tilde
+#print axioms Midgard.Props.C19.expandUser_home
+#print axioms Midgard.Props.C19.asEnum_spec
